@@ -4,6 +4,7 @@ Monitor shape: fire-back of every returned zero (the row at the aim point's hori
 of that same fire giving the largest step the zero finder can overshoot by); a bracketing search with Calculator.fire as
 a black box (R-ZERO) adjudicates every raise; stored zero compared around failures."""
 import math
+import os
 
 import py_ballisticcalc as pb
 from py_ballisticcalc import Angular, Calculator, Distance, Velocity
@@ -132,6 +133,8 @@ def check_case(ctx, case):
     x_ft = d_ft * math.cos(look)
     calc = build.calculator(cfg)
     ctx.count("zeroings")
+    if case["shot"].get("lobbed_shot"):
+        ctx.count("lobbed_shots")
     if case["shot"].get("slow_downhill_beyond_level_vacuum_range"):
         ctx.count("slow_downhill_beyond_level_vacuum_range")
     # precondition: a launch along the sight line reaches X within the limits
@@ -221,6 +224,16 @@ def check_case(ctx, case):
                     cap = (cfg or {}).get("cMaxIterations", 20)
                     hold_deg = sol[0] - look_deg
                     if err.iterations_count >= cap:
+                        # how the failed search moved: launch elevations of its trial trajectories (first point of each integration)
+                        tr = monitors.StepTrace()
+                        with monitors.quiet(), tr:
+                            try:
+                                build.calculator(cfg).barrel_elevation_for_target(build.shot(spec), Distance.Foot(d_ft))
+                            except (pb.ZeroFindingError, pb.RangeError):
+                                pass
+                        trial = [math.atan2(p_[5], p_[4]) for p_ in tr.points if p_[0] == 0.0]
+                        need = math.radians(sol[0]) - trial[0] if trial else 0.0
+                        first_fraction = (trial[1] - trial[0]) / need if len(trial) > 1 and need else None
                         big = build.calculator(dict(cfg or {}, cMaxIterations=cap * 10))
                         try:
                             with monitors.quiet():
@@ -237,7 +250,13 @@ def check_case(ctx, case):
                                 key = "C02.iteration-cap"
                         except pb.RangeError:
                             pass
-                ctx.violation(key, what, case, error=type(err).__name__, hold_over_deg=sol[0] - look_deg)
+                if key == "C02.iteration-cap" and not (locals().get("first_fraction") is not None and 0.3 <= locals()["first_fraction"] <= 3.0):
+                    # the listed mechanism is a search that starts with a correction of the size of the need (measured 0.5-1.4 of
+                    # it on the unchanged tree) and then converges linearly; a search that creeps towards the solution in small
+                    # steps (or moves the wrong way) and runs out of rounds is another mechanism - reported
+                    key = "zeroing-failed-for-reachable-target"
+                ctx.violation(key, what, case, error=type(err).__name__, hold_over_deg=sol[0] - look_deg,
+                              first_correction_fraction=locals().get("first_fraction"), trials=len(locals().get("trial") or []))
             else:
                 ctx.count("raises_legitimate_out_of_reach")
         ctx.case(case, nontrivial=nontrivial)
@@ -283,6 +302,15 @@ def gen_case(rng):
         s["zero_deg"] = 0.0
         d_yd = round(s["mv_fps"] ** 2 / 32.17405 * rng.uniform(1.03, 1.5) / 3.0, 1)
         s["slow_downhill_beyond_level_vacuum_range"] = True
+    if rng.random() < 0.06:
+        # a lobbed shot: slow, draggy projectile zeroed far out - the elevation above the sight line is 12..25 degrees
+        s["mv_fps"] = round(rng.uniform(950, 1150), 0)
+        s["bc"] = round(rng.uniform(0.1, 0.18), 3)
+        s["table"] = "G1"
+        s["look_deg"] = rng.choice([0.0, 0.0, 10.0, -8.0])
+        s["winds"] = []
+        d_yd = round(rng.uniform(1200, 1450) if s["look_deg"] <= 0 else rng.uniform(1100, 1300), 0)
+        s["lobbed_shot"] = True
     if rng.random() < 0.2:
         # temperature-sensitive powder stated at another temperature than the air's: zeroing and firing must launch alike
         s["powder"] = {"temp_c": round(rng.uniform(-25, 45), 1), "modifier": round(rng.choice([-1, 1]) * rng.uniform(0.005, 0.03), 4), "use": True}
